@@ -37,6 +37,7 @@ func init() {
 			{ID: "C05.R17", Text: "a non-document event reaches the position writer whenever the gate lets it pass: the seqno-advanced and marker handlers forward under no other condition of their own (same rule as C06.R7)", Run: markerInstall},
 			{ID: "C05.R18", Text: "a save writes what was settled and nothing else: dirty marks are raised only by the position writer (same rule as C14.R14)", Run: dirtyMarkWriters},
 			{ID: "C05.R19", Text: "a successful save stores the checkpoint under this group's own key: the document key is a function of the group name and the vBucket id of the call (same rule as C14.R4)", Run: c14r4},
+			{ID: "C05.R20", Text: "a failed save is reported by the store itself: no layer books, filters or retries saves on its own (same rules as C20.R19 and C20.R20)", Run: func(c *Ctx, id string) { decoratorsTransparent()(c, id); noNewLayers(c, id) }},
 			{ID: "C05.R8", Text: "mark/clear atomicity: the sites that mark the dirty state and the site that clears it hold a common mutex", Run: c05r8},
 		},
 	})
